@@ -157,12 +157,12 @@ func c08Run(r *Run, c c08Config) {
 	}
 	tokens := []string{c.Denom, mixCase(c.Denom, 0), "uatom"}
 	recips := [][]byte{distinct32(0x24), make([]byte, 32), nil, distinct32(0x24)[:31]}
-	callers := [][]byte{distinct32(0x25), make([]byte, 32), {}}
+	callers := [][]byte{distinct32(0x25), make([]byte, 32), {}, distinct32(0x25)[:20], append(distinct32(0x25), 1)}
 	depositors := []Account{UserA, UserB}
 	if thorough {
 		tokens = append(tokens, "")
 		recips = append(recips, []byte{}, append(distinct32(0x24), 1))
-		callers = append(callers, distinct32(0x25)[:31], append(distinct32(0x25), 1))
+		callers = append(callers, distinct32(0x25)[:31], append(distinct32(0x25), distinct32(0x26)...))
 		depositors = append(depositors, Outsider)
 	}
 	if c.Whale {
